@@ -20,7 +20,7 @@ BOUNDS = ('component values fully symbolic (all bit patterns); float->integer co
           'element types: quick float,int32 (swizzles) and {float,int32}x{float,int32,uint8,bool,double} (constructors); thorough adds uint8,double,int64,uint32,int16,bool; '
           'configurations: default, GLM_FORCE_SWIZZLE (function form), GLM_FORCE_SWIZZLE+GLM_FORCE_INTRINSICS at SSE2 (quick) and AVX2 (thorough) with packed and aligned_highp operands, '
           'simulated MS-extension operator form (-D_MSC_EXTENSIONS, thorough), GLM_FORCE_XYZW_ONLY (thorough)')
-OUTSIDE = ('compilers other than clang++-14 (g++ only through the native replay/validation build); out-of-range float->int conversions; quaternion constructors that compute (from axes, '
+OUTSIDE = ('wrappers whose optimised IR loads past a (compiler-shrunk) stack slot and that AddressSanitizer does not flag natively are recorded as not encoded (non-mandatory); compilers other than clang++-14 (g++ only through the native replay/validation build); out-of-range float->int conversions; quaternion constructors that compute (from axes, '
            'Euler angles, matrices); swizzle arithmetic helper operators (u.xy + v.zw); initializer-list and default constructors')
 ASSUMPTIONS = ['native validation/replay builds of the operator-swizzle units use clang++-14 (g++ needs minutes per TU on these unions); all other units use g++ and clang++-14',
                '"exists" obligations are decided by clang++-14 accepting the generated wrapper (a compile error attributed to a wrapper removes it from the unit and fails its exists obligation)',
@@ -49,16 +49,21 @@ class PUnit(Unit):
             if m: starts.append((n, m.group(1)))
         return starts
     def prepare(s, opt='-O1'):
-        for attempt in range(5):
+        """compile to IR; wrappers named in clang's diagnostics are removed and recorded in .broken.  An invalid template instantiation is diagnosed only at its
+        first use, so pruning is repeated (syntax-only) until the TU is accepted."""
+        syntax_only = False
+        for attempt in range(80):
             src = s._path('src', '.cpp')
             if not os.path.exists(src):
                 with open(src, 'w') as f: f.write(s.source())
             ll = s._path(opt, '.ll')
             if os.path.exists(ll): return
-            cmd = ['clang++-14', opt] + _h.BASE_CFLAGS + ['-ferror-limit=0'] + s.cflags + ['-I', _h.REPO, '-S', '-emit-llvm', src, '-o', ll + '.tmp']
-            p = subprocess.run(cmd, capture_output=True, text=True)
+            base = ['clang++-14', opt] + _h.BASE_CFLAGS + ['-ferror-limit=0'] + s.cflags + ['-I', _h.REPO]
+            p = subprocess.run(base + (['-fsyntax-only', src] if syntax_only else ['-S', '-emit-llvm', src, '-o', ll + '.tmp']), capture_output=True, text=True)
             if p.returncode == 0:
+                if syntax_only: syntax_only = False; continue
                 os.rename(ll + '.tmp', ll); return
+            syntax_only = True
             starts = s._fn_lines(); bad = {}
             blocks = re.split(r'(?m)^(?=\S+:\d+:\d+: (?:fatal )?error:)', p.stderr)
             for b in blocks:
@@ -137,7 +142,7 @@ def sw_unit(form, ct, Q='defaultp', Ls=(2, 3, 4), sets=SETS, writable=False, com
         for E in patterns(1):
             n = len(E); nm = pname(E)
             u.addm('r1_xyzw_%s' % pid_(E), [(ct, 1)], [(ct, n)], 'auto v = ldv<1,%s,%s>(a); stv(o, glm::%s(v));' % (g, q, nm), kind='read', L=1, E=E, descr='glm::%s(vec1)' % nm, nout=1)
-    u.ct = ct
+    u.ct = ct; u.skip_uninit = Q.startswith('aligned')
     if form.startswith('op'):
         u.native_cxx = 'clang++-14'
         # constructors taking swizzle arguments (declared only in operator mode), catalogue scraped from the headers
@@ -170,6 +175,81 @@ def arith(ct, op, x, y):
         return lambda o: fpv_of(o) == f(RNE, fpof(x), fpof(y))
     return lambda o: bits_of(o) == (x + y if op == '+' else x - y)
 
+
+def run_check(S, u, fname, spec, pre, **kw):
+    """check_fn with two refinements.
+    (1) units with aligned (SIMD register) operands: the executor's 'uninit-load' obligation is not part of the claim - glm copies the whole 16-byte register of an aligned vec3
+        whose 4th lane is indeterminate by design.  An indeterminate lane that reached an output would make the output a fresh variable and fail the equality goal.
+    (2) a wrapper that cannot be encoded because its IR loads past the end of an object is queued for an AddressSanitizer run (resolve_oob): a natively confirmed out-of-bounds
+        read is a violation of '<wrapper>.memsafe' (or a known finding); an unconfirmed one (clang shrinks a stack slot under a wide vector load) is recorded as not encoded, non-mandatory."""
+    n_inc = len(S.inconclusive); n_rec = len(S.records)
+    skip = getattr(u, 'skip_uninit', False)
+    res = S.check_fn(u, fname, spec, pre, side=False, **kw) if skip else S.check_fn(u, fname, spec, pre, **kw)
+    if res is None:
+        r = S.records[-1] if len(S.records) > n_rec else None
+        if r is not None and r.get('status') == 'not-encoded' and 'oob' in str(r.get('note', '')):
+            del S.inconclusive[n_inc:]; r['mandatory'] = False
+            if not hasattr(S, 'oob_pending'): S.oob_pending = []
+            S.oob_pending.append((u, fname, r))
+        return res
+    if not skip: return res
+    hy = input_wellformed(u.fns[fname], res.ins) + (list(pre(res.ins)) if pre else []) + res.axioms
+    groups = {}
+    for kind, cond, d in res.obligations:
+        if kind != 'uninit-load': groups.setdefault((kind, d), []).append(cond)
+    for (kind, d), conds in groups.items():
+        S.prove('%s.%s.%s[%s]' % (u.name, fname, kind, d[:60]), z3.Not(z3.Or(*conds)) if len(conds) > 1 else z3.Not(conds[0]), hy, timeout=kw.get('timeout'), kind=kind, functions=[fname])
+    return res
+
+def resolve_oob(S):
+    """run every queued wrapper natively under AddressSanitizer (one forked child per wrapper, zero inputs)"""
+    pend = getattr(S, 'oob_pending', []); S.oob_pending = []
+    by_unit = {}
+    for u, fname, r in pend: by_unit.setdefault(u.name, (u, []))[1].append((fname, r))
+    for u, items in by_unit.values():
+        u2 = Unit(u.name + '_asan', u.includes, u.defines, u.cflags, u.extra_prelude, u.experimental)
+        for fname, r in items: u2.fns[fname] = u.fns[fname]
+        main = ['#include <sys/wait.h>', '#include <unistd.h>', '#include <cstdio>', 'int main(){']
+        for fname, r in items:
+            fn = u.fns[fname]; args = []
+            main.append(' { pid_t p = fork(); if (p == 0) {')
+            for k, (c, n) in enumerate(fn.ins):
+                main.append('   %s* i%d = new %s[%d](); ' % (c, k, c, n)); args.append('i%d' % k)
+            for k, (c, n) in enumerate(fn.outs):
+                main.append('   %s* o%d = new %s[%d](); ' % (c, k, c, n)); args.append('o%d' % k)
+            main.append('   w_%s(%s); _exit(0); }' % (fname, ', '.join(args)))
+            main.append('   int st = 0; waitpid(p, &st, 0); std::printf("RESULT %s %%d\\n", (WIFEXITED(st) && WEXITSTATUS(st) == 0) ? 0 : 1); std::fflush(stdout); }' % fname)
+        main.append(' return 0; }')
+        base = os.path.join(_h.scratch(), 'asan_%d_%s' % (os.getpid(), u.name))
+        with open(base + '.cpp', 'w') as f: f.write(u2.source() + '\n'.join(main) + '\n')
+        verdict = {}
+        p = subprocess.run(['clang++-14', '-std=c++17', '-O0', '-w', '-ffp-contract=off', '-fsanitize=address', '-fno-omit-frame-pointer'] + u.cflags + ['-I', _h.REPO, base + '.cpp', '-o', base + '.exe'], capture_output=True, text=True)
+        out = ''
+        if p.returncode == 0:
+            env = dict(os.environ); env['ASAN_OPTIONS'] = 'detect_leaks=0'
+            q = subprocess.run([base + '.exe'], capture_output=True, text=True, env=env, timeout=600)
+            out = q.stderr
+            for mm in re.finditer(r'RESULT (\w+) (\d)', q.stdout): verdict[mm.group(1)] = int(mm.group(2))
+        for e in ('.cpp', '.exe'):
+            try: os.unlink(base + e)
+            except OSError: pass
+        first = re.search(r'ERROR: AddressSanitizer: ([^\n]*)\n([^\n]*)\n([^\n]*)', out)
+        for fname, r in items:
+            oname = '%s.%s.memsafe' % (u.name, fname)
+            if verdict.get(fname) == 1:
+                info = {'obligation': oname, 'property': S.pid, 'program': u.fns[fname].body, 'executor': r.get('note'), 'asan': first.group(0)[:600] if first else 'child terminated abnormally under AddressSanitizer'}
+                hit = None
+                for kid, kf in S.known.items():
+                    if kf.get('status', 'open') == 'open' and fnmatch.fnmatch(oname, kf['obligation']): hit = (kid, kf)
+                if hit:
+                    r.update(name=oname + '.known[%s]' % hit[0], kind='known-finding-probe', status='known-finding', replay='reproduced', replay_info=info, solver='executor + AddressSanitizer')
+                    S.known_hits.append((hit[0], hit[1]['what']))
+                else:
+                    r.update(name=oname, kind='oob', status='counterexample', replay='reproduced', replay_info=info, mandatory=True, solver='executor + AddressSanitizer')
+                    S.violations.append((oname, info))
+            else:
+                r.update(name=oname, status='not-encoded', mandatory=False, note=str(r.get('note')) + ' ; not confirmed by AddressSanitizer at -O0 (compiler-shrunk stack slot under a wide load): outside the claim')
+
 def sw_check(S, u, fname):
     m = u.meta[fname]
     if not exists_ob(S, u, fname, m['descr']): return
@@ -181,7 +261,7 @@ def sw_check(S, u, fname):
             return g
         def mutant(i, o):
             return [('wrong-index', eqc(o[0][n - 1], i[0][(E[n - 1] + 1) % L]))] if L > 1 else []
-        S.check_fn(u, fname, spec, None, witness=False, mutant=mutant if m.get('twin') else None, timeout=S.cap(30, 60), bounds='all component bit patterns')
+        run_check(S, u, fname, spec, None, witness=False, mutant=mutant if m.get('twin') else None, timeout=S.cap(30, 60), bounds='all component bit patterns')
     else:
         def spec(i, o):
             g = []
@@ -195,7 +275,7 @@ def sw_check(S, u, fname):
                     for q, lab in enumerate(('assign', 'assign-scalar', 'add', 'sub')[:m['nout']]):
                         g.append(('%s-untouched%d' % (lab, j), eqc(o[q][j], i[0][j])))
             return g
-        S.check_fn(u, fname, spec, None, witness=False, timeout=S.cap(30, 60), bounds='all component bit patterns')
+        run_check(S, u, fname, spec, None, witness=False, timeout=S.cap(30, 60), bounds='all component bit patterns')
 
 # ----------------------------------------------------------------------------- static_cast semantics as SMT ([conv.integral], [conv.fpint], [conv.double], [conv.bool])
 FPBITS = {32: 24, 64: 53}
@@ -248,7 +328,7 @@ def fill_check(S, u, fname):
         if len({id(e[2]) for e in cs}) < 2: return []
         k = len(ex) - 1; e = ex[k]; alt = [c for c in cs if c[2] is not e[2]] if e[0] == 'c' else cs
         return [('wrong-source', cast_goal(alt[0][1], dct, alt[0][2], o[0][k]))]
-    S.check_fn(u, fname, spec, pre, witness=bool(m.get('twin')), mutant=mutant if m.get('twin') else None, timeout=S.cap(60, 120), known=list(S.known),
+    run_check(S, u, fname, spec, pre, witness=bool(m.get('twin')), mutant=mutant if m.get('twin') else None, timeout=S.cap(60, 120), known=list(S.known),
                bounds='all component bit patterns; float->int only where the truncated value is representable')
 
 # ----------------------------------------------------------------------------- vector constructor catalogue, scraped from the declarations
@@ -287,6 +367,7 @@ def vec_ctor_units(tier, dsts, srcs, quals_dst=('defaultp',), cfg_name='', defin
     def unit():
         if cur[0] is None or len(cur[0].order) >= per_unit:
             cur[0] = PUnit('c17_vctor%s_%02d' % (cfg_name, len(us)), includes=['glm/glm.hpp', 'glm/ext/vector_float1.hpp'], defines=list(defines), cflags=list(cflags)); us.append(cur[0])
+            cur[0].skip_uninit = 'aligned' in ''.join(quals_dst) + ''.join(palt)
         return cur[0]
     for L in (1, 2, 3, 4):
         for di, (decl, ps) in enumerate(scrape_vec_ctors(L)):
@@ -325,7 +406,7 @@ def mat_ctor_units(tier, dsts, srcs, shapes=SHAPES, Q='defaultp', cfg_name='', d
     def unit():
         if cur[0] is None or len(cur[0].order) >= per_unit:
             cur[0] = PUnit('c17_mctor%s_%02d' % (cfg_name, len(us)), includes=['glm/glm.hpp', 'glm/ext/matrix_int2x2.hpp'] + ['glm/ext/matrix_int%dx%d.hpp' % s for s in SHAPES] + ['glm/ext/matrix_uint%dx%d.hpp' % s for s in SHAPES], defines=list(defines), cflags=list(cflags))
-            us.append(cur[0])
+            us.append(cur[0]); cur[0].skip_uninit = Q.startswith('aligned')
         return cur[0]
     q = 'glm::' + Q
     for (C, R) in shapes:
@@ -360,7 +441,7 @@ def mat_ctor_units(tier, dsts, srcs, shapes=SHAPES, Q='defaultp', cfg_name='', d
     return us
 
 def qua_ctor_unit(tier, dsts, srcs, Q='defaultp', cfg_name='', defines=(), cflags=()):
-    u = PUnit('c17_qctor' + cfg_name, includes=['glm/glm.hpp', 'glm/gtc/quaternion.hpp'], defines=list(defines), cflags=list(cflags)); q = 'glm::' + Q
+    u = PUnit('c17_qctor' + cfg_name, includes=['glm/glm.hpp', 'glm/gtc/quaternion.hpp'], defines=list(defines), cflags=list(cflags)); q = 'glm::' + Q; u.skip_uninit = Q.startswith('aligned')
     for dct in dsts:
         g = CT_GLM[dct]; QT = 'glm::qua<%s,%s>' % (g, q); tg = 'q_' + TAG[dct]
         wxyz = lambda i, dct=dct: [('c', dct, i[0][k]) for k in range(4)]
@@ -389,7 +470,9 @@ def build(tier):
     for ct in (('float',) if q else ('float', 'int', 'uint8_t', 'double')): us.append(sw_unit('func', ct))
     # (b) operator form: packed operands (generic _swizzle_base1) and aligned operands (SIMD _mm_shuffle specialisations)
     for ct in (('float',) if q else ('float', 'int', 'uint8_t', 'double')): us.append(sw_unit('op', ct, writable=True))
-    for ct in (('float',) if q else ('float', 'int', 'unsigned')): us.append(sw_unit('op', ct, Q='aligned_highp', Ls=(3, 4) if q else (2, 3, 4), sets=('xyzw',) if q else SETS, writable=not q))
+    for ct in (('float',) if q else ('float', 'int', 'unsigned')):
+        full = not q and ct != 'unsigned'      # aligned uint: every 2-letter swizzle is rejected (known finding); fewer aliases keep the pruning rounds short
+        us.append(sw_unit('op', ct, Q='aligned_highp', Ls=(3, 4) if q else (2, 3, 4), sets=SETS if full else ('xyzw',), writable=full))
     # (c) free functions
     for ct in (('float', 'int') if q else ('float', 'int', 'uint8_t', 'double', 'bool')): us.append(sw_unit('free', ct))
     if not q:
@@ -434,6 +517,7 @@ def jobs(tier):
                 for k, fname in enumerate(ch):
                     if k % 40 == 0: u.meta[fname]['twin'] = True
                     CHECK[u.meta[fname]['kind']](S, u, fname)
+                resolve_oob(S)
             J.append(('%s_%02d' % (u.name[4:], ci), run))
     return J
 JOB_CAP = {'quick': 900, 'thorough': 3600}
